@@ -616,6 +616,15 @@ def fieldShape (info : FieldInfo) (fd : FieldDef) : Res (Nat × Bool × Bool × 
 def readShape (size bt : Nat) (isBool isArray : Bool) : Nat × Bool × Bool :=
   if size < btSize bt then (btUint8, false, true) else (bt, isBool, isArray)
 
+/-- the value of a field shorter than its base type (`decodeFields`, "Size is less than expected"): the bytes assembled
+into one number by `convertBytesToValue`, and — `if field.Array { field.Value = valueAppend(proto.Value{}, field.Value) }`,
+the repair of KF-C01-undersized — for a field that is an array field (a known field the factory lists as an array; the
+array flag of a field without profile entry is false here: its size is below one element) the array of that one number,
+which is what the decoder returns for such a field holding one whole element -/
+def undersizedValue (arrayF : Bool) (b : List Nat) (arch bt : Nat) : Value :=
+  let c := convertBytesToValue b arch bt
+  if arrayF then valueAppend .invalid c else c
+
 /-- `decodeFields`, one field definition: the decoded field (none: size zero, skipped) -/
 def decodeField (d : MesgDef) (fd : FieldDef) (s : St) : Res (Option DField × St) := do
   let info := s.o.fac.create d.mesgNum fd.num
@@ -623,7 +632,7 @@ def decodeField (d : MesgDef) (fd : FieldDef) (s : St) : Res (Option DField × S
   if fd.size = 0 then pure (none, s) else
   let rs := readShape fd.size bt isBoolF arrayF
   let (v, s) ← readValue fd.size d.arch rs.1 rs.2.1 rs.2.2 overrideStr s
-  let v := if rs.1 ≠ bt then convertBytesToValue (sliceUint8Of v) d.arch bt else v
+  let v := if rs.1 ≠ bt then undersizedValue arrayF (sliceUint8Of v) d.arch bt else v
   pure (some ⟨fd.num, bt, info.known, isBoolF, arrayF, v, false⟩, noteAcc info.accumulate d.mesgNum fd.num v (noteTs fd.num v s))
 
 def decodeFields (d : MesgDef) : List FieldDef → List DField → St → Res (List DField × St)
